@@ -184,7 +184,7 @@ impl Prop for C03 {
 	}
 	fn strategy(&self, tier: Tier) -> BoxedStrategy<Case> {
 		let n = tier.pick(16usize, 26usize);
-		(0u8..3, prop_oneof![3 => Just(0u8), 1 => Just(1u8)], prop::collection::vec(op_strategy(), 4..n))
+		(0u8..3, prop_oneof![6 => Just(0u8), 2 => Just(1u8), 1 => Just(2u8), 1 => Just(3u8), 1 => Just(4u8)], prop::collection::vec(op_strategy(), 4..n))
 			.prop_map(|(base, preset, ops)| Case { base, preset, ops })
 			.boxed()
 	}
@@ -222,6 +222,59 @@ impl C03 {
 			}
 			let _ = sim.switch_account(0, 0);
 			out.class("preset:two-accounts-locked");
+		}
+		if c.preset == 2 {
+			// a late-locked send with a payment proof whose first reply arrives with a damaged proof signature (refused
+			// after the reservation), followed by the genuine reply
+			let args = SendArgs { amount: AmountPick::Frac(2000), use_all: false, late_lock: true, proof: true, ..SendArgs::default() };
+			if let Ok(si) = sim.init_send(0, 1, &args) {
+				if sim.deliver(si).is_ok() {
+					let _ = sim.finalize_tampered(si);
+					let _ = sim.finalize(si);
+				}
+			}
+			out.class("preset:late-lock-proof-refused-then-genuine");
+		}
+		if c.preset == 3 || c.preset == 4 {
+			// an invoice issued by wallet 0, paid and reserved by wallet 1, finalized by wallet 0 ...
+			let amt = std::cmp::max(1, sim.spendable(1, 1) / 6);
+			let r: Result<usize, String> = (|| {
+				let si = sim.issue_invoice(0, 1, amt)?;
+				sim.pay_invoice(si, &SendArgs::default())?;
+				sim.lock(si)?;
+				sim.finalize_invoice(si)?;
+				Ok(si)
+			})();
+			if let Ok(si) = r {
+				if c.preset == 3 {
+					// ... then a second, different reply (the payer's other account paid the same invoice) reaches the issuer
+					let rr = sim.refinalize_other_reply(si);
+					crate::rt::dbg(&format!("preset 3: second reply to the finalized invoice -> {:?}", rr));
+					if let Err(e) = rr {
+						if e.contains("accepted") {
+							out.fail("c03:finalized-slate-finalized-again", format!("preset invoice: {}", e));
+						}
+					}
+					out.class("preset:invoice-finalized-then-other-reply");
+				} else {
+					// ... posted, mined, seen confirmed by both; then the payer is handed the reserve step once more
+					let done: Result<(), String> = (|| {
+						sim.post(si)?;
+						sim.mine(None, 0xffff)?;
+						for w in 0..2 {
+							sim.refresh(w)?;
+						}
+						Ok(())
+					})();
+					if done.is_ok() && sim.slates[si].mined_at.is_some() {
+						let before = snap::view(sim.w(1));
+						if sim.lock(si).is_ok() && proj(&before) != proj(&snap::view(sim.w(1))) {
+							out.fail("c03:lock-repeat-had-effect", "preset invoice: the reserve step repeated after the payment was mined and seen confirmed succeeded and changed the payer's outputs / log".to_string());
+						}
+					}
+					out.class("preset:invoice-mined-then-lock-again");
+				}
+			}
 		}
 		for op in &c.ops {
 			let views_before = sim.views();
